@@ -218,6 +218,8 @@ func (P *Program) callEffect(U *Universe, ef *Effects, call ssa.CallInstruction,
 					ef.Fams[memFam(s)] = memSort(s)
 				}
 			}
+		case "close":
+			ef.Fams["Chan.closed"] = arraySort(SInt, SBool)
 		case "delete":
 			mt := c.Args[0].Type().Underlying().(*types.Map)
 			k, vv := U.sortOf(mt.Key(), false), U.sortOf(mt.Elem(), false)
